@@ -89,7 +89,9 @@ class Check:
                 if sig not in [k[0] for k in self.known]:
                     self.known.append((sig, what))
                 return
-        if len(self.violations) < 50:
+        self._vcount = getattr(self, "_vcount", {})
+        self._vcount[sig] = self._vcount.get(sig, 0) + 1
+        if self._vcount[sig] <= 2 and len(self.violations) < 40:
             self.violations.append((sig, what, replay))
 
     def spec_violation(self, res, label):
@@ -151,12 +153,56 @@ def load_findings():
     return out
 
 
-# ---- rationals ---------------------------------------------------------------------------------
+# ---- rationals (spec/lib/Num.tla representation) --------------------------------------------------
+def limbs_to_int(t) -> int:
+    r = 0
+    for x in reversed(t):
+        r = r * 10000 + x
+    return r
+
+
+def int_to_limbs(n: int):
+    out = []
+    while n > 0:
+        n, r = divmod(n, 10000)
+        out.append(r)
+    return tuple(out)
+
+
 def Q(v) -> Fraction:
-    """TLA+ rational <<n, d>> (or int) -> Fraction."""
-    if isinstance(v, (tuple, list)) and len(v) == 2:
-        return Fraction(v[0], v[1])
+    """Num.tla rational <<s, n, d>> (or a TLC int) -> Fraction."""
+    if isinstance(v, (tuple, list)) and len(v) == 3:
+        return Fraction(v[0] * limbs_to_int(v[1]), limbs_to_int(v[2]))
     return Fraction(v)
+
+
+def q_tla(x) -> str:
+    """Fraction / Decimal / int / str -> TLA+ literal of the Num.tla rational."""
+    f = frac(x)
+    s = (f > 0) - (f < 0)
+    n, d = abs(f.numerator), f.denominator
+
+    def l(k):
+        return "<<" + ", ".join(map(str, int_to_limbs(k))) + ">>"
+    return f"<<{s}, {l(n)}, {l(d)}>>"
+
+
+def is_q(v) -> bool:
+    return (isinstance(v, tuple) and len(v) == 3 and v[0] in (-1, 0, 1) and isinstance(v[1], tuple)
+            and isinstance(v[2], tuple) and len(v[2]) >= 1 and all(isinstance(i, int) for i in v[1] + v[2]))
+
+
+def unq(v):
+    """Recursively turn every Num.tla rational inside a parsed TLA+ value into a Fraction."""
+    if is_q(v):
+        return Q(v)
+    if isinstance(v, dict):
+        return {k: unq(x) for k, x in v.items()}
+    if isinstance(v, tuple):
+        return tuple(unq(x) for x in v)
+    if isinstance(v, list):
+        return [unq(x) for x in v]
+    return v
 
 
 def frac(x) -> Fraction:
